@@ -16,10 +16,15 @@
      RDDATA the read data of fast cycle m*ratio + read_delay on fast phase p is returned on slow phases p*ratio ..
             p*ratio+ratio-1 in slow cycle m + des; its rddata_valid is copied to all of them.
    Fast-side wrdata / rddata / masks are sequences of `ratio` chunks (chunk i belongs to slow phase p*ratio + i).
-   Nothing is required before enough history exists (start-up).  cfg = [ratio, P, ser, des, wd, rd]. *)
+   Nothing is required before enough history exists (start-up).  cfg = [ratio, P, ser, des, wd, rd, csidle].
+   The clauses depend only on the ORDER of the records (relative positions in the two histories) and on j; the cycle
+   numbers n are used only by the FORMAT clause, which guards the trace itself (a record missing or out of sequence). *)
 EXTENDS Integers, Sequences, FiniteSets, TLC
 
 ND == {"address", "bank", "cas_n", "cs_n", "ras_n", "we_n", "cke", "odt", "reset_n", "act_n", "wrdata_en", "rddata_en"}
+(* only what later clauses need is remembered: of a fast record the PHY->controller signals, of a slow record the others *)
+KeepFast(e) == [e EXCEPT !.ph = [p \in DOMAIN e.ph |-> [rddata |-> e.ph[p].rddata, rddata_valid |-> e.ph[p].rddata_valid]]]
+KeepSlow(e) == [e EXCEPT !.ph = [p \in DOMAIN e.ph |-> [f \in ND \cup {"wrdata", "wrdata_mask"} |-> e.ph[p][f]]]]
 InitRC == [slow |-> <<>>, fast |-> <<>>, nf |-> 0, ns |-> 0, slots |-> 0, cmds |-> 0]
 Last(q, k) == IF Len(q) <= k THEN q ELSE SubSeq(q, Len(q) - k + 1, Len(q))
 
@@ -38,7 +43,7 @@ FastStep(cfg, s, e) ==
                     <<p, f, i>> \in {x \in (1 .. P) \X {"wrdata", "wrdata_mask"} \X (1 .. r) :
                                         e.ph[x[1]][x[2]][x[3]] # sl.ph[(x[1] - 1) * r + x[3]][x[2]]}}
         ncmd == IF have THEN Cardinality({p \in 1 .. P : e.ph[p].cs_n # cfg.csidle /\ ~(e.ph[p].ras_n = 1 /\ e.ph[p].cas_n = 1 /\ e.ph[p].we_n = 1)}) ELSE 0
-    IN [s |-> [s EXCEPT !.fast = Last(Append(@, e), (cfg.des + 1) * r), !.nf = e.n + 1,
+    IN [s |-> [s EXCEPT !.fast = Last(Append(@, KeepFast(e)), (cfg.des + 1) * r), !.nf = e.n + 1,
                         !.slots = @ + (IF have THEN P ELSE 0), !.cmds = @ + ncmd],
         bad |-> fmt \cup cmd \cup wr]
 
@@ -46,7 +51,7 @@ SlowStep(cfg, s, e) ==
     LET r == cfg.ratio  P == cfg.P
         fmt == (IF e.n # s.ns \/ s.nf # (e.n + 1) * r THEN {<<"FORMAT", "slow record out of sequence", e.n, s.ns, s.nf>>} ELSE {})
         back == (cfg.des + 1) * r - 1 - cfg.rd            \* distance of the source fast cycle from the most recent one
-        have == Len(s.fast) > back /\ s.nf >= (cfg.des + 1) * r
+        have == Len(s.fast) > back
         fr == s.fast[Len(s.fast) - back]
         rdd == IF ~have THEN {} ELSE
                {<<"RDDATA", "slow-side read data is not the fast-side burst of the matching cycle", e.n, p, i,
@@ -55,7 +60,7 @@ SlowStep(cfg, s, e) ==
                \cup {<<"RDDATA", "slow-side rddata_valid is not the fast-side valid of the matching cycle", e.n, p, i,
                   e.ph[(p - 1) * r + i].rddata_valid, fr.ph[p].rddata_valid>> :
                     <<p, i>> \in {x \in (1 .. P) \X (1 .. r) : e.ph[(x[1] - 1) * r + x[2]].rddata_valid # fr.ph[x[1]].rddata_valid}}
-    IN [s |-> [s EXCEPT !.slow = Last(Append(@, e), cfg.ser), !.ns = e.n + 1], bad |-> fmt \cup rdd]
+    IN [s |-> [s EXCEPT !.slow = Last(Append(@, KeepSlow(e)), cfg.ser), !.ns = e.n + 1], bad |-> fmt \cup rdd]
 
 RCStep(cfg, s, e) == IF e.k = "F" THEN FastStep(cfg, s, e) ELSE SlowStep(cfg, s, e)
 ====
